@@ -1,12 +1,222 @@
-import IV.Model.ClientLoad
+import IV.Lemmas.ClientLoad
+/-!
+C16 — client options resolve by precedence, and offline means no network.
+
+Part 1 is proved against the GENERATED definitions `imply` / `validate` (IV.Gen.ClientConfig, re-translated from
+insights/client/config.py at the start of every run) for EVERY environment `env` (file system, manifest table,
+private attributes, the opaque method) and EVERY configuration `cfg`.  No proof names a step or a guard by index:
+`cfg_simp` rewrites with whatever equations the translator produced, `simp_all` finishes.  Removing or weakening
+an implication or a guard in the source makes the corresponding theorem fail to build.
+
+Part 2 is about the hand-written loader model (IV.Model.ClientLoad): precedence, unknown names, and the
+decomposition of a successful `loadAll` into `imply` / `validate`, which is what makes Part 1 speak about loaded
+configurations.
+-/
 namespace IV.ClientLoad
 open IV.ClientVal IV.ClientConfig
 
+/-! ## Part 1: the implication table of a validated configuration -/
+
+/-- offline ⇒ no upload, no registration, no auto-update (already after `_imply_options`) -/
+theorem offline_implies (env : Env) (cfg : Cfg)
+    (ho : truthy (imply env cfg Attr.offline) = true) :
+    truthy (imply env cfg Attr.no_upload) = true ∧
+    truthy (imply env cfg Attr.register) = false ∧
+    truthy (imply env cfg Attr.auto_update) = false := by
+  cfg_simp at ho ⊢
+  refine ⟨?_, ?_, ?_⟩ <;> (try split) <;> simp_all
+
+example : truthy (imply (concreteEnv [] false none) (toCfg [("offline".toList, .bool true), ("register".toList, .bool true)]) Attr.offline) = true := by
+  decide
+
+/-- offline is never combined with a status / connection-test / check-in / unregister / check-results /
+diagnosis / JSON request once `_validate_options` has passed -/
+theorem offline_excludes (env : Env) (cfg : Cfg)
+    (hv : validate env (imply env cfg) = true)
+    (ho : truthy (imply env cfg Attr.offline) = true) :
+    truthy (imply env cfg Attr.status) = false ∧
+    truthy (imply env cfg Attr.test_connection) = false ∧
+    truthy (imply env cfg Attr.checkin) = false ∧
+    truthy (imply env cfg Attr.unregister) = false ∧
+    truthy (imply env cfg Attr.check_results) = false ∧
+    truthy (imply env cfg Attr.diagnosis) = false ∧
+    truthy (imply env cfg Attr.to_json) = false := by
+  cfg_simp at hv ho ⊢
+  simp only [apply_ite truthy] at hv ⊢
+  simp_all
+
+/-- an explicit output directory or file ⇒ no upload and no retained temporary archive -/
+theorem output_implies (env : Env) (cfg : Cfg)
+    (h : truthy (imply env cfg Attr.output_dir) = true ∨ truthy (imply env cfg Attr.output_file) = true) :
+    truthy (imply env cfg Attr.no_upload) = true ∧
+    truthy (imply env cfg Attr.keep_archive) = false := by
+  cfg_simp at h ⊢
+  constructor <;> split <;> simp_all
+
+/-- host-name obfuscation ⇒ obfuscation -/
 theorem obf_hostname_implies_obf (env : Env) (cfg : Cfg)
     (hv : validate env (imply env cfg) = true)
     (h : truthy (imply env cfg Attr.obfuscate_hostname) = true) :
     truthy (imply env cfg Attr.obfuscate) = true := by
   cfg_simp at hv h ⊢
   simp_all
+
+/-- a conflicting combination PRESENT IN THE LOADED VALUES (before implication) is rejected by
+`_validate_options`, not resolved silently: offline with any of the seven requests, host-name
+obfuscation without obfuscation, both scheduling switches -/
+theorem conflicts_rejected (env : Env) (cfg : Cfg)
+    (h : (truthy (cfg Attr.offline) = true ∧
+            (truthy (cfg Attr.status) = true ∨ truthy (cfg Attr.test_connection) = true ∨
+             truthy (cfg Attr.checkin) = true ∨ truthy (cfg Attr.unregister) = true ∨
+             truthy (cfg Attr.check_results) = true ∨ truthy (cfg Attr.diagnosis) = true ∨
+             truthy (cfg Attr.to_json) = true)) ∨
+         (truthy (cfg Attr.obfuscate_hostname) = true ∧ truthy (cfg Attr.obfuscate) = false) ∨
+         (truthy (cfg Attr.enable_schedule) = true ∧ truthy (cfg Attr.disable_schedule) = true)) :
+    validate env (imply env cfg) = false := by
+  apply Bool.eq_false_iff.mpr
+  intro hv
+  cfg_simp at hv
+  simp only [apply_ite truthy] at hv
+  rcases h with ⟨ho, h⟩ | h | h
+  · rcases h with h | h | h | h | h | h | h <;> simp_all
+  · simp_all
+  · simp_all
+
+example : truthy (toCfg [("offline".toList, .bool true), ("checkin".toList, .bool true)] Attr.offline) = true ∧
+    truthy (toCfg [("offline".toList, .bool true), ("checkin".toList, .bool true)] Attr.checkin) = true := by decide
+
+/-- an output directory and an output file that both survive implication are rejected -/
+theorem output_conflict_rejected (env : Env) (cfg : Cfg)
+    (h : truthy (imply env cfg Attr.output_dir) = true ∧ truthy (imply env cfg Attr.output_file) = true) :
+    validate env (imply env cfg) = false := by
+  apply Bool.eq_false_iff.mpr
+  intro hv
+  cfg_simp at hv h
+  simp_all
+
+/-! ## Part 2: the loader -/
+
+/-- the value one `_update_dict` layer gives an option (`none`: the layer does not set it) -/
+def layer (d : Dict) (k : Str) : Option PyVal := dlast (effective d) k
+
+/-- PRECEDENCE.  After the loading steps of `load_all` (before implication) every name `k` has the value of the
+command line, else of the environment, else of the file that was read, else the value it had after the
+`conf`-only first pass over the command line (see `conf_only_pass`: that is the constructed value). -/
+theorem precedence (inp : Input) (s0 cli s : Dict) (h : preImply inp s0 cli = .ok s) (k : Str) :
+    ∃ fd ed, fileDict (fileAt inp.files (dget (afterConfOnly s0 cli) kConf)) = .dict fd ∧
+      envDict inp.envVars = some ed ∧
+      dget s k = (layer cli k).orElse (fun _ => (layer ed k).orElse (fun _ => (layer fd k).orElse
+        (fun _ => dget (afterConfOnly s0 cli) k))) := by
+  unfold preImply at h
+  simp only [] at h
+  split at h
+  · cases h
+  · rename_i fd hfd
+    split at h
+    · cases h
+    · rename_i ed hed
+      injection h with h
+      refine ⟨fd, ed, hfd, hed, ?_⟩
+      rw [← h]
+      simp only [dget_updateDict, layer]
+
+/-- the first, `conf_only=True`, pass over the command line: when the command line has no `--conf` it applies the
+whole command line (which the last pass repeats), so the base value is the constructed one or the command
+line's own -/
+theorem conf_only_pass (s0 cli : Dict) (k : Str) (h : dlast cli kConf = none) :
+    dget (afterConfOnly s0 cli) k = (layer cli k).orElse (fun _ => dget s0 k) := by
+  unfold afterConfOnly
+  rw [h]
+  simp only [dget_updateDict, layer]
+
+/-- hence: full precedence `cli > env > file > constructed value (default or keyword argument)` whenever
+`--conf` is not on the command line -/
+theorem precedence_full (inp : Input) (s0 cli s : Dict) (h : preImply inp s0 cli = .ok s)
+    (hc : dlast cli kConf = none) (k : Str) :
+    ∃ fd ed, fileDict (fileAt inp.files (dget s0 kConf |>.orElse fun _ => none) |> fun _ =>
+        fileAt inp.files (dget (afterConfOnly s0 cli) kConf)) = .dict fd ∧
+      envDict inp.envVars = some ed ∧
+      dget s k = (layer cli k).orElse (fun _ => (layer ed k).orElse (fun _ => (layer fd k).orElse
+        (fun _ => dget s0 k))) := by
+  obtain ⟨fd, ed, hfd, hed, hk⟩ := precedence inp s0 cli s h k
+  refine ⟨fd, ed, hfd, hed, ?_⟩
+  rw [hk, conf_only_pass s0 cli k hc]
+  cases layer cli k <;> simp
+
+/- not proved here (time): with `--conf P` on the command line the first pass writes only `conf`, so `precedence`'s
+base value is the constructed one for every `k ≠ conf`; the correspondence stream covers `--conf` cases. -/
+
+/-- UNKNOWN NAMES never become settings: a successful `InsightsConfig(**kw).load_all()` holds no name outside
+the option table, whatever the four sources contain -/
+theorem unknown_dropped (inp : Input) (s : Dict) (h : loadAll inp = .ok s) (k : Str) (hk : k ∉ optNames) :
+    dget s k = none := by
+  obtain ⟨s0, cli0, s1, hc, _, hp, hf⟩ := loadAll_ok inp s h
+  have k0 : Known s0 := by
+    unfold construct at hc
+    obtain ⟨e, _, _⟩ := finish_ok _ _ _ hc
+    rw [e]
+    exact known_fromCfg _ _ (known_updateDict _ _ (known_updateDict _ _ known_nil))
+  have k1 : Known s1 := by
+    unfold preImply at hp
+    simp only [] at hp
+    split at hp
+    · cases hp
+    · split at hp
+      · cases hp
+      · injection hp with hp
+        rw [← hp]
+        refine known_updateDict _ _ (known_updateDict _ _ (known_updateDict _ _ ?_))
+        unfold afterConfOnly
+        split <;> exact known_updateDict _ _ k0
+  obtain ⟨e, _, _⟩ := finish_ok _ _ _ hf
+  rw [e]
+  exact known_fromCfg _ _ k1 k hk
+
+example : "no_schedule".toList ∉ optNames := by decide
+
+/-- DECOMPOSITION: a successful load is `fromCfg (imply env c) s'` for the store `s'` before implication, the
+implication did not raise, and validation passed — so Part 1 applies to `c = toCfg s'`, `env` = the concrete
+environment of the run -/
+theorem load_ok_decomposition (inp : Input) (s : Dict) (h : loadAll inp = .ok s) :
+    ∃ (env : Env) (s' : Dict), s = fromCfg (imply env (toCfg s')) s' ∧
+      truthy (imply env (toCfg s') Attr.raised_) = false ∧
+      validate env (imply env (toCfg s')) = true := by
+  obtain ⟨_, _, s1, _, _, _, hf⟩ := loadAll_ok inp s h
+  exact ⟨_, s1, finish_ok _ _ _ hf⟩
+
+/-- the value a loaded store holds for an attribute is the implied one -/
+theorem loaded_value (c : Cfg) (s' : Dict) (a : Attr) (v : PyVal) (ha : attrOfName a.name = some a)
+    (h : dget (fromCfg c s') a.name = some v) : v = c a := by
+  rw [dget_fromCfg] at h
+  cases hd : dget s' a.name with
+  | none => rw [hd] at h; cases h
+  | some w =>
+    rw [hd] at h
+    simp only [Option.map, fcVal, ha] at h
+    injection h with h; exact h.symm
+
+/-- `attrOfName` inverts `Attr.name` on every real attribute (so `loaded_value` applies to all of them) -/
+theorem attrOfName_name (a : Attr) (h : a ≠ Attr.raised_) : attrOfName a.name = some a := by
+  cases a <;> first | rfl | exact absurd rfl h
+
+/-! ## the recorded finding: the legacy section -/
+
+/-- full statement: a file with only the legacy section contributes its (valid) items like the current section -/
+def LegacySectionLoads : Prop :=
+  ∀ items d, coerceAll items = some d → fileDict (.legacy items) = fileDict (.section items)
+
+/-- what does hold: a legacy section WITHOUT typed options is loaded (as strings) -/
+theorem legacy_section_partial (items : List (Str × Str)) (h : items.any (fun kv => fileTyped kv.1) = false) :
+    fileDict (.legacy items) = .dict (dofPairs (items.map (fun kv => (kv.1, .str kv.2)))) := by
+  simp [fileDict, h]
+
+/-- witness (replayed against the implementation on every run): `[redhat-access-insights] auto_update=False`
+raises NoSectionError -/
+theorem legacy_section_witness : ¬ LegacySectionLoads := by
+  intro h
+  have := h [(['a','u','t','o','_','u','p','d','a','t','e'], ['F','a','l','s','e'])]
+    [(['a','u','t','o','_','u','p','d','a','t','e'], .bool false)] (by decide)
+  revert this
+  decide
 
 end IV.ClientLoad
